@@ -3,6 +3,7 @@ import Gaftools.Props.C06b
 import Gaftools.Props.C06c
 import Gaftools.Props.C06d
 import Gaftools.Props.C06e
+import Gaftools.Props.TieA2
 #print axioms Gaftools.C18.runOrder_ranges
 #print axioms Gaftools.C18.numberChain_scaffold
 #print axioms Gaftools.C18.numberChain_bubble
@@ -27,3 +28,5 @@ import Gaftools.Props.C06e
 #print axioms Gaftools.C06.buildScaffold_wf
 #print axioms Gaftools.C06.decompose_ok_stages
 #print axioms Gaftools.C06.decompose_ok_chain
+#print axioms Gaftools.TieA.finishScaffold_gen
+#print axioms Gaftools.TieA.numberChain_gen
